@@ -481,12 +481,13 @@ theorem JInv_step {cfg : Cfg} (wf : WF cfg) {s s' : State} {l : Label} (hs : SIn
   | cbFail i hi hf =>
       exact JInv_finish wf (s := { s with log := s.log ++ [i], cbLock := false
                                           cbIn := if (cfg.pool (cfg.poolOf i)).innerCb
-                                            then s.cbIn.set (cfg.poolOf i) false else s.cbIn })
+                                            then s.cbIn.set (cfg.poolOf i) false else s.cbIn
+                                          tLocks := s.tLocks.set (cfg.obj i) false })
         (JInv_congr h rfl rfl (fun _ => rfl) (fun _ => rfl) (fun _ => rfl))
-        (SInv_congr hs rfl rfl rfl rfl (by simp only; split <;> simp) (fun _ => rfl) (fun _ => rfl))
+        (SInv_congr hs rfl rfl (by simp) rfl (by simp only; split <;> simp) (fun _ => rfl) (fun _ => rfl))
         false hi rfl
   | cbOk i hi hf => exact JInv_set h hi rfl rfl rfl rfl
-  | tAcq i hi hl => exact JInv_set h hi rfl rfl rfl rfl
+  | tAcq i hi hl => exact JInv_set h hi (by simp) rfl rfl rfl
   | bTry i p hi hp' =>
       rcases budgetTry_cases cfg s i with ⟨_, _, e⟩ | ⟨_, _, e⟩ | ⟨_, _, e⟩ | ⟨_, _, e⟩ <;> rw [e] <;>
         exact JInv_set h hi rfl rfl rfl rfl
